@@ -67,6 +67,10 @@ func (g *c08Gen) yield(file string, minIdx int, vars []string, depth int, inUses
 		}
 		n.Params = append(n.Params, mj.Param{Name: p, E: g.argValue(vars)})
 	}
+	if g.n(0, 4, "extraArg") == 0 {
+		g.labels["argument-the-block-does-not-declare"] = true
+		n.Params = append(n.Params, mj.Param{Name: g.id("extra"), E: g.argValue(vars)})
+	}
 	if len(perm) >= 2 && len(n.Params) >= 2 && n.Params[0].Name != sig.params[0] {
 		g.labels["shuffled-arguments"] = true
 	}
@@ -164,6 +168,14 @@ func (g *c08Gen) def(file string, idx int, depth int) *mj.Node {
 	return n
 }
 
+// chainPath: the leaf sits in the root directory, every further chain file in its own directory
+func chainPath(i int) string {
+	if i == 0 {
+		return "/c0.jet"
+	}
+	return fmt.Sprintf("/dir%d/c%d.jet", i, i)
+}
+
 func genC08(t *rapid.T) c08Case {
 	g := &c08Gen{t: t, labels: map[string]bool{}, defs: map[string][]string{}}
 	g.p = &mj.Program{Entry: "/c0.jet", Vars: map[string]mj.Recipe{"ev1": mj.RStr("EV1"), "ev2": mj.RInt(7)}}
@@ -202,9 +214,15 @@ func genC08(t *rapid.T) c08Case {
 	// extends chain c0 (leaf) -> c1 -> ... -> c<chain> (root)
 	var files []*mj.File
 	for i := 0; i <= chain; i++ {
-		f := &mj.File{Path: fmt.Sprintf("/c%d.jet", i)}
+		f := &mj.File{Path: chainPath(i)}
 		if i < chain {
-			f.Extends = []string{fmt.Sprintf("/c%d.jet", i+1), fmt.Sprintf("c%d", i+1), fmt.Sprintf("./c%d.jet", i+1)}[g.n(0, 2, "extspelling")]
+			// relative names resolve against the directory of the file that contains the clause, at every hop
+			next := chainPath(i + 1)
+			rel := "../" + next[1:]
+			if i == 0 {
+				rel = next[1:]
+			}
+			f.Extends = []string{next, rel, strings.TrimSuffix(rel, ".jet")}[g.n(0, 2, "extspelling")]
 			f.HdrWS = append(f.HdrWS, ws())
 		}
 		perm := rapid.Permutation(imports).Draw(t, "importorder")
@@ -213,6 +231,11 @@ func genC08(t *rapid.T) c08Case {
 				f.Imports = append(f.Imports, im.Path)
 				f.HdrWS = append(f.HdrWS, ws())
 			}
+		}
+		if len(f.Imports) >= 2 && g.n(0, 3, "reimport") == 0 {
+			g.labels["same-import-twice"] = true
+			f.Imports = append(f.Imports, f.Imports[0])
+			f.HdrWS = append(f.HdrWS, ws())
 		}
 		files = append(files, f)
 	}
